@@ -122,6 +122,8 @@ static const struct { const char *prefix; const char *cls; } diagtab[] = {
 	{ NULL, NULL }
 };
 
+static int in_nest;	/* > 0 while a callback runs a nested parse of another context */
+
 static void errfunc(cfg_t *cfg, const char *fmt, va_list ap)
 {
 	int i;
@@ -135,7 +137,7 @@ static void errfunc(cfg_t *cfg, const char *fmt, va_list ap)
 			cls = diagtab[i].cls;
 			break;
 		}
-	fputs("G ", obs);
+	fputs(in_nest ? "T nest G " : "G ", obs);
 	puthex(cfg->filename);
 	fprintf(obs, " %d %s\n", cfg->line, cls);
 }
@@ -302,6 +304,8 @@ static int cb_valid2(cfg_t *cfg, cfg_opt_t *opt, void *value)
 	return fail;
 }
 
+static cfg_t *ctx[4];
+
 static int cb_func(cfg_t *cfg, cfg_opt_t *opt, int argc, const char **argv)
 {
 	int i, fail = failing();
@@ -317,6 +321,16 @@ static int cb_func(cfg_t *cfg, cfg_opt_t *opt, int argc, const char **argv)
 	cbcount++;
 	if (argc > 0 && !strcmp(argv[0], "fail"))
 		fail = 1;
+	/* "nest:<text>": the callback itself parses <text> into context 1 while the parse
+	 * that called it is still running (a second live context, used re-entrantly) */
+	if (argc > 0 && !strncmp(argv[0], "nest:", 5) && ctx[1] && ctx[1] != cfg) {
+		int rc;
+
+		in_nest++;
+		rc = cfg_parse_buf(ctx[1], argv[0] + 5);
+		in_nest--;
+		fprintf(obs, "T nest %d\n", rc);
+	}
 	if (fail)
 		cfg_error(cfg, "callback failed");
 	return fail;
@@ -497,7 +511,6 @@ static cfg_opt_t *build_opts(int *pos, int depth)
 }
 
 /* ---------- contexts ---------- */
-static cfg_t *ctx[4];
 
 static void dump_cfg(cfg_t *cfg, int depth);
 
